@@ -37,14 +37,33 @@ def is_det(cfg):
     return False
 
 
+@st.composite
+def plan_st(draw, tier):
+    cfg = draw(gen.config_st(arm_kinds=("int", "str", "float", "mix"), max_arms=4, with_binarizer=True, scale_ok=True,
+                             n_jobs_choices=(1, 1, 1, 1, 1, 1, 1, 2, 3, 4), defaults_ok=True,
+                             metrics=gen.SAFE_METRICS))
+    h = gen.History(draw, cfg, max_rows=8, series_queries=True, refit_new_d=True)
+    kinds = gen.TRAIN_KINDS + gen.ARM_KINDS * 2 + gen.QUERY_KINDS * 3 + gen.WARM_KINDS
+    for _ in range(draw(st.sampled_from([0, 0, 0, 1, 2]))):
+        gen.step_any(h, gen.ARM_KINDS + gen.WARM_KINDS, True)
+    for _ in range(draw(st.integers(1, 14 if tier == "quick" else 25))):
+        gen.step_any(h, kinds, True)
+        if h.fitted and h.can_add() and draw(st.integers(0, 11)) == 0:
+            # every arm the bandit has is replaced by a new one: queries answered by arms without any trained state
+            # (no tree, no regression rows, no observations), the context width known only from the last fit
+            old = list(h.arms)
+            h.add_arm()
+            for a in old:
+                h.arms.remove(a)
+                h.removed.append(a)
+                h.ops.append(["remove_arm", a])
+            for _ in range(draw(st.integers(1, 3))):
+                h.query()
+    return {"config": cfg, "ops": h.ops, "family": h.family, "d": h.d}
+
+
 def strategy(tier, ctx):
-    return gen.history_plan_st(
-        tier, max_steps=14 if tier == "quick" else 25,
-        config_kw=dict(arm_kinds=("int", "str", "float", "mix"), max_arms=4, with_binarizer=True, scale_ok=True,
-                       n_jobs_choices=(1, 1, 1, 1, 1, 1, 1, 2, 3, 4), defaults_ok=True),
-        hist_kw=dict(max_rows=8),
-        kinds=gen.TRAIN_KINDS + gen.ARM_KINDS * 2 + gen.QUERY_KINDS * 3 + gen.WARM_KINDS,
-        start_fitted=False, binarizer_on_add=True)
+    return plan_st(tier)
 
 
 def n_rows(q):
@@ -63,9 +82,15 @@ def evaluate(plan, ctx):
     prev = None
     for i, op in enumerate(plan["ops"]):
         k = op[0]
+        series_rows = None
+        if k.endswith("_series"):
+            # a pandas Series query: one row per value for one-feature data, a single row otherwise
+            series_rows = op[2]
+            k = k[:-7]
+            ev.add("series_query")
         single_twin = None
         if k in ("predict", "predict_expectations") and fitted and is_det(cfg) and op[1] is not None \
-                and len(op[1]) > 1 and not (k == "predict" and cfg["np"] and cfg["np"][0] in ("Radius", "LSHNearest")):
+                and series_rows is None and len(op[1]) > 1 and not (k == "predict" and cfg["np"] and cfg["np"][0] in ("Radius", "LSHNearest")):
             # (predict on an empty neighbourhood draws an arm at random: excluded from the row-order comparison)
             single_twin = copy.deepcopy(mab)
         out = ops.apply_op(mab, op)
@@ -90,7 +115,7 @@ def evaluate(plan, ctx):
         if got_arms != arms or [type(a) for a in got_arms] != [type(a) for a in arms]:
             raise Violation("arms_list", "step %d after %s: mab.arms %r, expected %r" % (i, k, got_arms, arms))
         if k in ("predict", "predict_expectations"):
-            m = n_rows(op[1])
+            m = n_rows(op[1]) if series_rows is None else series_rows
             want_list = m is not None and m > 1
             if (out[0] == "L") != want_list:
                 raise Violation("result_shape", "step %d %s with %r rows returned %s"
